@@ -9,7 +9,7 @@ ASSUMPTIONS = ["block-memory semantics of raw pointers / Vec / Box as modelled i
                "uninitialised-memory reads and provenance are not tracked"]
 TRUSTED_EXTRA = ["ledger allocator harness/src/ledger.rs (tracked sections, quarantine, red zones)"]
 DIRECT = r'^c02-|^c03-freed-while-in-use|^abnormal-exit'
-def translators(ctx, bins): pass
+def translators(ctx, bins): eng_heap.translators(ctx)
 def engines(ctx, bins):
     eng_heap.absorb(ctx, eng_heap.run(ctx, bins), DIRECT)
     import eng_bufmut
